@@ -207,7 +207,7 @@ Fixpoint empty_val2_f (f : nat) (s : string) : bool * string :=
           else (false, s)
       end
   end.
-Definition empty_val2 (s : string) : bool * string := empty_val2_f (String.length s) s.
+Definition empty_val2 (s : string) : bool * string := empty_val2_f (S (String.length s)) s.
 
 (* ---------- typedVal ---------- *)
 (* strings.EqualFold(s, w) for an ASCII lower-case word w: ASCII letters fold, and U+017F
